@@ -157,7 +157,9 @@ Qed.
 Definition dinv (P : params) (i0 : N) (d : disk) (Ac : list row) : Prop :=
   1 <= i0 /\ chain P i0 (d_files d) /\ fview P (d_cur d) Ac []
   /\ consec (i0 + flen (d_files d)) (map row_entry Ac)
-  /\ d_next d = N.of_nat (length Ac) /\ (Ac = [] -> d_files d = []).
+  /\ d_next d = N.of_nat (length Ac)
+  (* an empty current file beside older files (left behind by a failed Save): those files hold no dead slot *)
+  /\ (Ac = [] -> Forall all_live (d_files d)).
 
 Lemma find_file_skip : forall P pre rest i0 i k, chain P i0 pre -> 1 <= i0 -> i0 + flen pre <= i ->
   find_file i (pre ++ rest) k = find_file i rest (k + length pre)%nat.
@@ -181,7 +183,7 @@ Section SlotGe.
   Lemma slot_ge_cur_inside : forall i, c0 <= i -> i < c0 + N.of_nat (length Ac) ->
     slot_ge P d i = (InCur, Some (i - c0)).
   Proof.
-    intros i Hlo Hhi. destruct I as (H1 & Hch & V & C & Hn & He).
+    intros i Hlo Hhi. destruct I as (H1 & Hch & V & C & Hn & HKl).
     unfold slot_ge. assert (HA : Ac <> []) by (intro E; rewrite E in Hhi; cbn in Hhi; lia).
     rewrite (file_slot_ge_inside P (d_cur d) Ac [] c0 V C ltac:(unfold c0; lia) i HA Hlo Hhi). reflexivity.
   Qed.
@@ -189,19 +191,45 @@ Section SlotGe.
   Lemma slot_ge_cur_beyond : forall i, Ac <> [] -> c0 + N.of_nat (length Ac) <= i ->
     slot_ge P d i = (InCur, Some (N.of_nat (length Ac))).
   Proof.
-    intros i HA Hi. destruct I as (H1 & Hch & V & C & Hn & He).
+    intros i HA Hi. destruct I as (H1 & Hch & V & C & Hn & HKl).
     unfold slot_ge. rewrite (file_slot_ge_beyond P (d_cur d) Ac [] c0 V C ltac:(unfold c0; lia) i HA Hi). reflexivity.
   Qed.
 
-  Lemma slot_ge_empty : Ac = [] -> forall i, slot_ge P d i = (InCur, None).
+  Lemma slot_ge_empty : Ac = [] -> d_files d = [] -> forall i, slot_ge P d i = (InCur, None).
   Proof.
-    intros HA i. destruct I as (H1 & Hch & V & C & Hn & He).
-    unfold slot_ge. rewrite (file_slot_ge_empty P (d_cur d) Ac [] c0 V C ltac:(unfold c0; lia) HA i). now rewrite (He HA).
+    intros HA Hf i. destruct I as (H1 & Hch & V & C & Hn & HKl).
+    unfold slot_ge. rewrite (file_slot_ge_empty P (d_cur d) Ac [] c0 V C ltac:(unfold c0; lia) HA i). now rewrite Hf.
+  Qed.
+
+  (* the current file is empty but older files exist (the state a failed first write into a fresh file, or a failed
+     Save that had cleared the current file from slot 0, leaves behind): an index beyond the log is looked up in the
+     newest rotated file and answered with its first empty slot *)
+  Lemma slot_ge_files_beyond : Ac = [] -> forall pre f i, d_files d = pre ++ [f] -> c0 <= i ->
+    exists A D, fview P f A D /\ A <> [] /\ consec (i0 + flen pre) (map row_entry A)
+                /\ slot_ge P d i = (InOld (length pre), Some (N.of_nat (length A))).
+  Proof.
+    intros HA pre f i Hf Hi. destruct I as (H1 & Hch & V & C & Hn & HKl).
+    pose proof Hch as Hch0.
+    rewrite Hf in Hch. apply chain_app in Hch as [Hpre Hrest]. cbn [chain] in Hrest.
+    destruct Hrest as (A & D & Vf & HAf & Cf & _). exists A, D. repeat (split; [assumption|]).
+    set (fi := i0 + flen pre) in *.
+    assert (Hc0 : c0 = fi + N.of_nat (length A)).
+    { unfold c0, fi. rewrite Hf. unfold flen. rewrite map_app, concat_app, app_length. cbn [map concat].
+      rewrite app_nil_r, (fv_entries P f A D Vf), map_length. lia. }
+    unfold slot_ge. rewrite (file_slot_ge_empty P (d_cur d) Ac [] c0 V C ltac:(unfold c0; lia) HA i).
+    assert (Hfind : find_file i (pre ++ [f]) 0 = length (pre ++ [f])).
+    { rewrite <- (app_nil_r (pre ++ [f])) at 1. rewrite <- Hf.
+      rewrite (find_file_skip P (d_files d) [] i0 i 0 Hch0 H1) by (fold c0; lia). reflexivity. }
+    rewrite Hf. destruct (pre ++ [f]) eqn:Enil; [destruct pre; discriminate|]. rewrite <- Enil in *. clear Enil.
+    rewrite Hfind, Nat.ltb_irrefl. cbn [andb].
+    rewrite app_length. cbn [length]. replace (Nat.pred (length pre + 1)) with (length pre) by lia.
+    rewrite app_nth2 by lia. rewrite Nat.sub_diag. cbn [nth].
+    rewrite (file_slot_ge_beyond P f A D fi Vf Cf ltac:(unfold fi; lia) i HAf) by lia. reflexivity.
   Qed.
 
   Lemma slot_ge_below_nofiles : d_files d = [] -> forall i, i < i0 -> slot_ge P d i = (InCur, None).
   Proof.
-    intros Hf i Hi. destruct I as (H1 & Hch & V & C & Hn & He).
+    intros Hf i Hi. destruct I as (H1 & Hch & V & C & Hn & HKl).
     unfold slot_ge. rewrite (file_slot_ge_below P (d_cur d) Ac [] c0 V C ltac:(unfold c0; lia) i) by (unfold c0; lia). now rewrite Hf.
   Qed.
 
@@ -210,7 +238,7 @@ Section SlotGe.
     i0 + flen pre <= i -> i < i0 + flen pre + N.of_nat (length A) ->
     slot_ge P d i = (InOld (length pre), Some (i - (i0 + flen pre))).
   Proof.
-    intros pre f post A D i Hf Vf Hlo Hhi. destruct I as (H1 & Hch & V & C & Hn & He).
+    intros pre f post A D i Hf Vf Hlo Hhi. destruct I as (H1 & Hch & V & C & Hn & HKl).
     rewrite Hf in Hch. apply chain_app in Hch as [Hpre Hrest]. cbn [chain] in Hrest.
     destruct Hrest as (A' & D' & V' & HA' & C' & Hpost).
     assert (EA : length A' = length A).
@@ -255,7 +283,7 @@ Section SlotGe.
 
   Lemma slot_ge_below_files : d_files d <> [] -> forall i, i < i0 -> exists k, slot_ge P d i = (InOld k, None).
   Proof.
-    intros Hf i Hi. destruct I as (H1 & Hch & V & C & Hn & He).
+    intros Hf i Hi. destruct I as (H1 & Hch & V & C & Hn & HKl).
     unfold slot_ge. rewrite (file_slot_ge_below P (d_cur d) Ac [] c0 V C ltac:(unfold c0; lia) i) by (unfold c0; lia).
     destruct (d_files d) as [|f t] eqn:Ef; [congruence|]. cbn [chain] in Hch.
     destruct Hch as (A & D & Vf & HA & Cf & _).
